@@ -491,8 +491,8 @@ func variants(thorough bool) []sx.Variant {
 	for _, p := range ps {
 		p := p
 		bound := 2
-		if thorough {
-			bound = 3
+		if thorough && !p.Many {
+			bound = 3 // (the three-round histories stay at k = 2: k = 3 on them alone takes over an hour)
 		}
 		out = append(out, sx.Variant{
 			Name: p.name(), Class: "fanout", MaxSteps: 30000, MaxTime: 10 * time.Minute, Bound: bound, Shards: 8,
